@@ -146,7 +146,7 @@ Theorem C11_topup_generated :
 Proof. split; [exact gen_TopUp|exact model_sub_topup]. Qed.
 Print Assumptions C11_topup_generated.
 
-From Sge Require Import Proofs.SubExact.
+From Sge Require Import Model.Orderbook Proofs.SubExact.
 (* PARTIAL (the full clause "exactly equal when nobody sent it tokens directly" over all histories stays a per-run check): exactness —
    every registered subaccount's bank balance EQUALS deposited - withdrawn - spent - lost — is kept by every list of settlement effects made
    of plain payments between ordinary accounts and payment-plus-hook groups (win with the profit forwarded to the owner, loss, refund, fee
